@@ -17,7 +17,8 @@ RULE = ("A small 3-iteration nifty.re.optimize_kl run with odir set is executed 
         "Oracle: it must finish, and samples (pos, residuals, keys) and state (nit, key, minimisation result) "
         "must be byte-identical to the uninterrupted run.")
 LEVEL_TEXT = ("Fault enumeration over all Python-visible file-system operations of one small multi-iteration run "
-              "(two configurations: MGVI linear_resample and geoVI nonlinear_resample); exhaustive in the "
+              "(four configurations: MGVI linear_resample, geoVI nonlinear_resample, key-reusing linear_sample started "
+              "from a Samples object, and a per-iteration mode schedule with nonlinear_update); exhaustive in the "
               "operation index in the thorough tier, a seeded stratified subset in the quick tier.")
 LEVEL_NOTE = ("Python-level operations of one small run; kernel-level torn writes are modelled only as flushed "
               "prefixes of a write call; kill = os._exit(137) in the child (buffers dropped like SIGKILL).")
@@ -27,10 +28,16 @@ ASSUMPTIONS = ["os._exit models SIGKILL: flushed data persists, unflushed buffer
 CONFIGS = {
     "mgvi": dict(sample_mode="linear_resample", n_samples=2, n_iter=3, seed=11),
     "geovi": dict(sample_mode="nonlinear_resample", n_samples=1, n_iter=3, seed=5),
+    # modes that re-use the sample keys of the previous iteration (the saved state must carry them), with the
+    # run started from a `Samples` object (the documented alternative to a bare position)
+    "keep_keys": dict(sample_mode="linear_sample", n_samples=2, n_iter=3, seed=7, init="samples"),
+    # a per-iteration schedule of sample modes incl. nonlinear_update (updates the loaded samples in place)
+    "schedule": dict(sample_mode=["linear_resample", "nonlinear_update", "nonlinear_sample"], n_samples=1,
+                     n_iter=3, seed=3, init="samples"),
 }
 
 
-def scenario(odir, resume, sample_mode, n_samples, n_iter, seed):
+def scenario(odir, resume, sample_mode, n_samples, n_iter, seed, init="position"):
     """runs in the child process"""
     import jax
     jax.config.update("jax_enable_x64", True)
@@ -50,8 +57,15 @@ def scenario(odir, resume, sample_mode, n_samples, n_iter, seed):
     data = jnp.array([0.7, -0.2, 1.1, 0.4])
     lh = jft.Gaussian(data, noise_cov_inv=lambda x: 4.0 * x).amend(fwd)
     pos0 = jft.Vector({"a": jnp.array([0.1, -0.2, 0.3]), "b": jnp.array([0.0, 0.1, -0.1])})
+    if isinstance(sample_mode, list):
+        modes = list(sample_mode)
+        sample_mode = lambda i: modes[min(i, len(modes) - 1)]   # noqa: E731
+    start = pos0
+    if init == "samples":
+        # the result of a previous (one-iteration MAP-like) run as starting point: a Samples object
+        start = jft.Samples(pos=pos0 * 1.0, samples=None, keys=None)
     samples, st = jft.optimize_kl(
-        lh, pos0, key=k_o, n_total_iterations=n_iter, n_samples=n_samples,
+        lh, start, key=k_o, n_total_iterations=n_iter, n_samples=n_samples,
         draw_linear_kwargs=dict(cg_name=None, cg_kwargs=dict(absdelta=1e-10, maxiter=30)),
         nonlinearly_update_kwargs=dict(minimize_kwargs=dict(name=None, xtol=1e-6, maxiter=5,
                                                             cg_kwargs=dict(name=None))),
@@ -78,7 +92,7 @@ def scenario(odir, resume, sample_mode, n_samples, n_iter, seed):
 
 JIT = False
 
-ENUM = CrashEnum("props.c24_re_resume:scenario", CONFIGS, quick_limit=14, env_extra={"JAX_PLATFORMS": "cpu"})
+ENUM = CrashEnum("props.c24_re_resume:scenario", CONFIGS, quick_limit=10, env_extra={"JAX_PLATFORMS": "cpu"})
 PREPARE = ENUM.prepare
 
 SUBS = [
